@@ -313,9 +313,11 @@ func subjects() []*subject {
 				func() string { return reqObs(st, "r", sentinel.WithArgs("A")) },
 				func() string { return reqObs(st, "r", sentinel.WithArgs("B")) }, tickOp(400), tickOp(1100)}[op]()
 		},
-		Load:   func(edit string, per bool) { loadHs(hsRules(edit, qx), per) },
-		Init:   []string{"[X]", "[Y,X]"},
-		Edits:  []string{"[X]", "[Y,X]", "[X,Y]", "[Y',X]", "[X,X]", "[X',X]", "[X,X']"},
+		Load: func(edit string, per bool) { loadHs(hsRules(edit, qx), per) },
+		Init: []string{"[X]", "[Y,X]"},
+		// no "[X,X]" here: a duplicate is a rule of its own whose token bucket starts at the reload, so
+		// its refill phase differs from X's and it may legitimately reject where X alone admits
+		Edits:  []string{"[X]", "[Y,X]", "[X,Y]", "[Y',X]", "[X',X]", "[X,X']"},
 		Others: []string{"Y", "Y'", "W", "W'", "X'"},
 	})
 	cx := func() *hotspot.Rule {
@@ -539,6 +541,184 @@ func run(c *props.Ctx) {
 	c.R.Traces = c.R.Evaluations
 	if c.Shard == 0 {
 		keepsStatistics(c)
+		stepwiseEqualsAtOnce(c)
+	}
+}
+
+// stepwiseEqualsAtOnce: a load that modifies several rules at once must leave every one of them with
+// ITS OWN accumulated statistics, exactly as if the modifications had been loaded one after the other
+// (the statement's "a modified rule whose statistic parameters are unchanged keeps its accumulated
+// statistics", whatever else is modified in the same load). No reference model is needed: the trace
+// after [P',Q'] is compared with the traces after [P',Q];[P',Q'] and after [P,Q'];[P',Q'].
+func stepwiseEqualsAtOnce(c *props.Ctx) {
+	type msub struct {
+		name  string
+		ops   []string
+		apply func(st *runState, op int) string
+		load  func(names string, per bool)
+	}
+	hsMk := func(names string) []*hotspot.Rule {
+		var out []*hotspot.Rule
+		for _, n := range strings.Split(strings.Trim(names, "[]"), ",") {
+			r := &hotspot.Rule{ID: strings.TrimSuffix(n, "'"), Resource: "r", MetricType: hotspot.QPS, DurationInSec: 1, Threshold: 2}
+			if n[0] == 'Q' {
+				r.ParamIndex = 1
+			}
+			if strings.HasSuffix(n, "'") {
+				r.Threshold = 3
+			}
+			out = append(out, r)
+		}
+		return out
+	}
+	flMk := func(names string) []*flow.Rule {
+		var out []*flow.Rule
+		for _, n := range strings.Split(strings.Trim(names, "[]"), ",") {
+			r := &flow.Rule{ID: strings.TrimSuffix(n, "'"), Resource: "r", StatIntervalInMs: 3000, Threshold: 2}
+			if n[0] == 'Q' {
+				r.Threshold = 4
+			}
+			if strings.HasSuffix(n, "'") {
+				r.Threshold++
+			}
+			out = append(out, r)
+		}
+		return out
+	}
+	cbMk := func(names string) []*cb.Rule {
+		var out []*cb.Rule
+		for _, n := range strings.Split(strings.Trim(names, "[]"), ",") {
+			r := &cb.Rule{Id: strings.TrimSuffix(n, "'"), Resource: "r", Strategy: cb.ErrorCount, RetryTimeoutMs: 1000, MinRequestAmount: 1, StatIntervalMs: 5000, Threshold: 2}
+			if n[0] == 'Q' {
+				r.Threshold = 5 // no modified rule may coincide with another old rule: equality ignores the id
+			}
+			if strings.HasSuffix(n, "'") {
+				r.Threshold++
+			}
+			out = append(out, r)
+		}
+		return out
+	}
+	must := func(_ bool, err error) {
+		if err != nil {
+			panic(err)
+		}
+	}
+	subs := []msub{
+		{"hotspot-qps", []string{"req(A,A)", "req(A,B)", "req(B,A)", "tick(400)", "tick(1100)"},
+			func(st *runState, op int) string {
+				switch op {
+				case 0:
+					return reqObs(st, "r", sentinel.WithArgs("A", "A"))
+				case 1:
+					return reqObs(st, "r", sentinel.WithArgs("A", "B"))
+				case 2:
+					return reqObs(st, "r", sentinel.WithArgs("B", "A"))
+				case 3:
+					return tickOp(400)()
+				}
+				return tickOp(1100)()
+			},
+			func(names string, per bool) {
+				if per {
+					must(hotspot.LoadRulesOfResource("r", hsMk(names)))
+				} else {
+					must(hotspot.LoadRules(hsMk(names)))
+				}
+			}},
+		{"flow-reject-standalone-window", []string{"req", "tick(1000)", "tick(3000)"},
+			func(st *runState, op int) string {
+				return []func() string{func() string { return reqObs(st, "r") }, tickOp(1000), tickOp(3000)}[op]()
+			},
+			func(names string, per bool) {
+				if per {
+					must(flow.LoadRulesOfResource("r", flMk(names)))
+				} else {
+					must(flow.LoadRules(flMk(names)))
+				}
+			}},
+		{"circuit-breaker", []string{"req-ok", "req-err", "tick(400)", "tick(1000)"},
+			func(st *runState, op int) string {
+				switch op {
+				case 0, 1:
+					e, blk := sentinel.Entry("r")
+					if blk != nil {
+						return "B"
+					}
+					if op == 1 {
+						e.Exit(base.WithError(bizErr))
+					} else {
+						e.Exit()
+					}
+					return "P"
+				case 2:
+					return tickOp(400)()
+				}
+				return tickOp(1000)()
+			},
+			func(names string, per bool) {
+				if per {
+					must(cb.LoadRulesOfResource("r", cbMk(names)))
+				} else {
+					must(cb.LoadRules(cbMk(names)))
+				}
+			}},
+	}
+	depth := 5
+	if !c.Quick() {
+		depth = 6
+	}
+	c.R.Bounds["stepwise_vs_at_once_history_depth"] = depth
+	run := func(m msub, h []int, p int, per bool, loads []string) string {
+		env.ResetAll(env.DefaultGeometry, T0)
+		st := &runState{}
+		env.Clock.OnSleep = func(d time.Duration) { st.sleeps = append(st.sleeps, d) }
+		m.load("[P,Q]", false)
+		var tr []string
+		for i, op := range h {
+			if i == p {
+				for _, l := range loads {
+					m.load(l, per)
+				}
+			}
+			tr = append(tr, m.apply(st, op))
+		}
+		return strings.Join(tr, ",")
+	}
+	idx := 0
+	for _, m := range subs {
+		for _, h := range histories(len(m.ops), depth) {
+			idx++
+			if !c.Mine(idx) {
+				continue
+			}
+			if c.Expired() {
+				c.R.Cap("time budget reached in the stepwise-vs-at-once pass")
+				return
+			}
+			for _, per := range []bool{false, true} {
+				for p := 0; p < len(h); p++ {
+					once := run(m, h, p, per, []string{"[P',Q']"})
+					c.R.Evaluations++
+					for _, steps := range [][]string{{"[P',Q]", "[P',Q']"}, {"[P,Q']", "[P',Q']"}} {
+						got := run(m, h, p, per, steps)
+						c.R.Evaluations++
+						c.R.Transitions += int64(len(h))
+						if got != once {
+							ops := make([]string, len(h))
+							for i, o := range h {
+								ops[i] = m.ops[o]
+							}
+							c.R.Violate(report.Violation{Signature: "C14:" + m.name + ":several-modified-rules-in-one-load",
+								What: fmt.Sprintf("%s: rules [P,Q], history %v, before operation %d (per-resource=%v): loading [P',Q'] at once gives decisions [%s], loading %v one after the other gives [%s]",
+									m.name, ops, p, per, once, steps, got),
+								Scenario: "stepwise-vs-at-once", Replay: map[string]interface{}{"subject": "stepwise-" + m.name, "history": h, "p": p, "per": per}})
+							break
+						}
+					}
+				}
+			}
+		}
 	}
 }
 
